@@ -275,7 +275,10 @@ CONTRACTS.append(Contract(
 # by the bounded stand-in json_laws against the real json module.
 CONTRACTS.append(Contract(
     M + '_normalize_str', props=['C18', 'C07', 'C16'], trusted=True,
-    params={'value': STR}, returns=STR,
+    # PYV -> PYV: the function returns its ARGUMENT when there is nothing to combine, so an
+    # instance of a str subclass comes back as that instance (callers must pass the contents)
+    params={'value': PYV}, returns=PYV,
+    requires=lambda c: [('is-a-str', J.is_str(J.base_of(c.value)))],
     ensures=lambda c: [('identity-on-the-modelled-strings', c.res == c.value)],
     notes='combines surrogate pairs like json does; identity on every other string (the string '
           'model of the proofs has no surrogate pairs): bounded stand-in json_laws'))
